@@ -741,3 +741,111 @@ reg(Contract(
                              ghost_init=lambda c: dict(stop_ghost(c), TRAJ=c.st.ghost["TRAJ"], ver=c.st.ghost["ver"], written=c.st.ghost["written"], WRITTEN=c.st.ghost["WRITTEN"]))},
     overrides={"EngineBase.add_to_path": _atp_summary()},
 ))
+
+
+# ------------------------------------------------------------------ ... and for the TurtleMD loop
+def _tsr_make(ex, st):
+    sub, n = fresh("subcycles", INT), fresh("nsteps", INT)
+    st.assume(sub >= 1, n >= 0)
+    rev = fresh("reverse", BOOL)
+    p = _mk_path(st, "path")
+    st.assume(_pplen(st, p) == 0, _fld(st, "Path.maxlen", p.term) >= 1)
+    st.ghost = dict(st.ghost, TRAJ=fresh("TRAJ", z3.ArraySort(INT, REAL)), stopped=z3.BoolVal(False), last_success=z3.BoolVal(False), appended=z3.IntVal(0),
+                    written=z3.IntVal(0), WRITTEN=fresh("WRITTEN", z3.ArraySort(INT, INT)), buf_pos=fresh("bp", INT), buf_vel=fresh("bv", INT), buf_box=fresh("bb", INT), ver=z3.IntVal(0))
+    return {"self": AseHeapDriver("step_nr", {"subcycles": sub, "dim": fresh("dim", INT), "boltzmann": fresh("kb", REAL)}), "tmd_simulation": SimObj(n), "tmd_system": TmdState(),
+            "pos": Buf("pos"), "vel": Buf("vel"), "box": Buf("box"), "atoms": Opaque("atoms"), "thermo": ThermoDict(), "path": p,
+            "step_nr": 0, "system": SysObj(rev), "msg_file": Opaque("msg_file"), "traj_file": "traj.xyz", "reverse": rev,
+            "left": fresh("left", REAL), "right": fresh("right", REAL), "status": Opaque("s"), "success": False}
+
+
+reg(Contract(
+    "TurtleMDEngine._propagate_from#stop_rule", src=(TMD_PY, "TurtleMDEngine._propagate_from"), slice=_loop_over("step"),
+    cases=[Case("sym", _tsr_make)],
+    ensures=[("propagate_result", _asr_post)],
+    canaries=[("never_succeeds", lambda c: z3.Not(c.v("success")) if z3.is_expr(c.v("success")) else z3.BoolVal(not c.v("success")))],
+    loops={"for:i,step": LoopSpec(lambda ctx: _asr_inv(ctx) + [("one_file_frame_per_phase_point", ctx.st.ghost["written"] == _iv(ctx.v("step_nr")))],
+                                  modifies=_sysf() + ["Path.pp", "Path.pp#len"], allocates=True,
+                                  ghost_init=lambda c: dict(stop_ghost(c), **{k: c.st.ghost[k] for k in ("TRAJ", "written", "WRITTEN", "buf_pos", "buf_vel", "buf_box")}))},
+    overrides={"EngineBase.add_to_path": _atp_summary(),
+               "write_xyz_trajectory": Contract("write_xyz_trajectory", params=["filename", "pos", "vel", "names", "box", "step", "append"], defaults={"step": None, "append": True}, custom=_tmd_write)},
+))
+
+
+# ------------------------------------------------------------------ ... and for the LAMMPS / CP2K consumption loops (one poll: the path already holds the s0 frames of earlier polls)
+from . import engines_loops as _el  # noqa: E402
+
+for _k in ("shift_boxbounds",):
+    REG[_k] = _el.REG[_k]
+IMPORTS["shift_boxbounds"] = _el.IMPORTS["shift_boxbounds"]
+
+
+def _poll_make(engine):
+    def make(ex, st):
+        s0, n = fresh("s0", INT), fresh("n", INT)
+        st.assume(s0 >= 0, n >= 0)
+        rev = fresh("reverse", BOOL)
+        L, R = fresh("left", REAL), fresh("right", REAL)
+        p = _mk_path(st, "path")
+        M = _fld(st, "Path.maxlen", p.term)
+        TR = fresh("TRAJ", z3.ArraySort(INT, REAL))
+        # state handed over by the earlier polls (this loop's own invariant at its exit, see _asr_inv): s0 frames, all inside, room left
+        st.assume(_pplen(st, p) == s0, M >= 1, z3.Implies(s0 > 0, s0 < M),
+                  forall_range(0, s0, lambda j: z3.And(_inside(st, p, j, L, R), _op(st, p, j) == z3.Select(TR, j))))
+        st.ghost = dict(st.ghost, TRAJ=TR, stopped=z3.BoolVal(False), last_success=z3.BoolVal(False), appended=z3.IntVal(0), s0=s0, written=z3.IntVal(0), npos=n, nvel=n)
+        args = {"self": AseHeapDriver("step_nr"), "step_nr": s0, "system": SysObj(rev), "msg_file": Opaque("msg_file"), "reverse": rev, "path": p, "left": L, "right": R,
+                "exe": ExeObj(), "iterations_after_stop": 0, "status": Opaque("s"), "success": False}
+        if engine == "lammps":
+            args.update(trajectory=FrameSeq(_frame_list(st, "trajectory", s0, n), "posvel"), box_trajectory=FrameSeq(_frame_list(st, "box_trajectory", s0, n), "box"),
+                        traj_file="traj.lammpstrj", lammps_was_terminated=False)
+        else:
+            args.update(pos_traj=FrameSeq(_frame_list(st, "pos_traj", s0, n), "pos"), vel_traj=FrameSeq(_frame_list(st, "vel_traj", s0, n), "vel"),
+                        traj_file="traj.xyz", cp2k_was_terminated=False, atoms=Opaque("atoms"), box=Opaque("box"))
+        return args
+    return make
+
+
+def _poll_inv(ctx):
+    g, p = ctx.st.ghost, ctx.v("path")
+    L, R = ctx.v("left"), ctx.v("right")
+    M = _fld(ctx.st, "Path.maxlen", p.term)
+    k = _iv(ctx.v("step_nr"))
+    s0 = g["s0"]
+    return stop_inv(ctx) + [
+        ("one_frame_per_consumed_reader_frame", z3.And(_pplen(ctx.st, p) == k, k == s0 + ctx.it, g["appended"] == ctx.it)),
+        ("room_left_while_running", z3.Implies(k > 0, k < M)),
+        ("maxlen_unchanged", M == _fld(ctx.old, "Path.maxlen", p.term)),
+        ("all_frames_so_far_inside", forall_range(0, k, lambda j: _inside(ctx.st, p, j, L, R))),
+        ("frames_carry_the_computed_orders", forall_range(0, k, lambda j: _op(ctx.st, p, j) == z3.Select(g["TRAJ"], j))),
+        ("path_well_formed", _wf_path(ctx.st, p)),
+        ("no_success_without_a_stop", z3.Not(g["last_success"])),
+    ]
+
+
+def _poll_post(c):
+    g, p = c.st.ghost, c.v("path")
+    L, R = c.v("left"), c.v("right")
+    n, M = _pplen(c.st, p), _fld(c.st, "Path.maxlen", p.term)
+    sv = c.v("success")
+    sv = sv if z3.is_expr(sv) else z3.BoolVal(bool(sv))
+    last_out = z3.Or(_op(c.st, p, n - 1) < L, _op(c.st, p, n - 1) > R)
+    return [
+        ("all_frames_but_the_last_are_inside", forall_range(0, n - 1, lambda j: _inside(c.st, p, j, L, R))),
+        ("path_never_exceeds_maxlen", n <= M),
+        ("after_a_stop_success_iff_the_last_frame_is_outside_and_the_path_is_not_full", z3.Implies(g["stopped"], sv == z3.And(last_out, n != M))),
+        ("without_a_stop_the_handover_state_holds_again", z3.Implies(z3.Not(g["stopped"]), z3.And(forall_range(0, n, lambda j: _inside(c.st, p, j, L, R)), z3.Implies(n > 0, n < M)))),
+        ("frame_k_carries_the_order_computed_for_frame_k", forall_range(0, n, lambda j: _op(c.st, p, j) == z3.Select(g["TRAJ"], j))),
+    ]
+
+
+for _key, _src, _eng in (("LAMMPSEngine._propagate_from#stop_rule", (_el.LAMMPS_PY, "LAMMPSEngine._propagate_from"), "lammps"),
+                         ("CP2KEngine._propagate_from#stop_rule", (CP2K_PY, "CP2KEngine._propagate_from"), "cp2k")):
+    reg(Contract(
+        _key, src=_src, slice=_loop_over("frame"), cases=[Case("sym", _poll_make(_eng))],
+        ensures=[("propagate_result", _poll_post)],
+        canaries=[("never_succeeds", lambda c: z3.Not(c.v("success")) if z3.is_expr(c.v("success")) else z3.BoolVal(not c.v("success")))],
+        loops={"for:frame": LoopSpec(_poll_inv, modifies=_sysf() + ["Path.pp", "Path.pp#len"], allocates=True,
+                                     ghost_init=lambda c: dict(stop_ghost(c), TRAJ=c.st.ghost["TRAJ"], written=c.st.ghost["written"]))},
+        overrides={"EngineBase.add_to_path": _atp_summary(),
+                   "write_xyz_trajectory": Contract("write_xyz_trajectory", params=["filename", "pos", "vel", "names", "box", "step", "append"], defaults={"step": None, "append": True},
+                                                    custom=lambda ex, st, b, node: iter([(st, None)]))},
+    ))
